@@ -68,6 +68,11 @@ AtomOn(a, n) ==
                            ELSE IF ~IsDigitStr(Text(n)) THEN "X" ELSE IF ToInt(Text(n)) > a.k THEN "T" ELSE "F"
     [] a.kind = "intle" -> IF Text(n) = <<>> THEN (IF 0 <= a.k THEN "T" ELSE "F")
                            ELSE IF ~IsDigitStr(Text(n)) THEN "X" ELSE IF ToInt(Text(n)) <= a.k THEN "T" ELSE "F"
+    \* comparisons between float-valued sides: int(x) / 2 < k / 2 is, exactly, int(x) < k (halving is exact)
+    [] a.kind = "halflt" -> IF Text(n) = <<>> THEN (IF 0 < a.k THEN "T" ELSE "F")
+                            ELSE IF ~IsDigitStr(Text(n)) THEN "X" ELSE IF ToInt(Text(n)) < a.k THEN "T" ELSE "F"
+    [] a.kind = "halfgt" -> IF Text(n) = <<>> THEN (IF 0 > a.k THEN "T" ELSE "F")
+                            ELSE IF ~IsDigitStr(Text(n)) THEN "X" ELSE IF ToInt(Text(n)) > a.k THEN "T" ELSE "F"
     [] a.kind = "starts" -> IF Len(Text(n)) >= Len(a.lit) /\ SubSeq(Text(n), 1, Len(a.lit)) = a.lit THEN "T" ELSE "F"
 
 IntOf(n) == IF Text(n) = <<>> THEN 0 ELSE ToInt(Text(n))
@@ -75,6 +80,7 @@ IntOK(n) == Text(n) = <<>> \/ IsDigitStr(Text(n))
 Cmp2(kind, a, b) ==
   CASE kind = "intle" -> IF ~IntOK(a) \/ ~IntOK(b) THEN "X" ELSE IF IntOf(a) <= IntOf(b) THEN "T" ELSE "F"
     [] kind = "intlt" -> IF ~IntOK(a) \/ ~IntOK(b) THEN "X" ELSE IF IntOf(a) < IntOf(b) THEN "T" ELSE "F"
+    [] kind = "halflt" -> IF ~IntOK(a) \/ ~IntOK(b) THEN "X" ELSE IF IntOf(a) < IntOf(b) THEN "T" ELSE "F"
     [] kind = "streq" -> IF Text(a) = Text(b) THEN "T" ELSE "F"
     [] kind = "strne" -> IF Text(a) # Text(b) THEN "T" ELSE "F"
 
